@@ -97,6 +97,8 @@ def random_file(r):
         elif y < 0.38:
             line += r.choice(blanks)
         lines.append(line)
+    if len(lines) >= 2 and r.random() < 0.35:
+        lines.append(r.choice(lines[:-1]))          # an earlier line again, verbatim, after later ones
     sep = r.choice(["\n", "\n", "\r\n"])
     text = sep.join(lines)
     if r.random() < 0.6:
@@ -168,6 +170,10 @@ def run(tier):
     for _ in range(min(len(mapping), 3000 if tier == "quick" else 30000)):
         a, b = r_.choice(mapping), r_.choice(mapping)
         cases.append({"text": a + [10] + b + ([10] if r_.random() < 0.5 else []), "lits": LITS})
+    # a line, a conflicting line, and the first line again verbatim: the last one must win
+    for _ in range(min(len(mapping), 3000 if tier == "quick" else 30000)):
+        a, b = r_.choice(mapping), r_.choice(mapping)
+        cases.append({"text": a + [10] + b + [10] + a + [10], "lits": LITS})
     v.notes["gen_files"] = len(cases)
     validate(v, wd, "gen", cases)
     cases = [{"text": cps(random_file(r_)), "lits": LITS} for _ in range(3000 if tier == "quick" else 60000)]
